@@ -501,6 +501,11 @@ class Interp:
 
     def field_owner(self, cls, name):
         owner = cls
+        if not dataclasses.is_dataclass(cls) or not any(f.name == name for f in dataclasses.fields(cls)):
+            for k in cls.__mro__:
+                if "init_arg_names" in k.__dict__ and name in (k.__dict__["init_arg_names"] if isinstance(k.__dict__["init_arg_names"], tuple) else ()):
+                    owner = k
+            return owner
         for k in cls.__mro__:
             if dataclasses.is_dataclass(k) and any(f.name == name for f in dataclasses.fields(k)):
                 owner = k
@@ -617,10 +622,8 @@ class Interp:
                 return Conc(obj.cls)
             if name in obj.extra:
                 return obj.extra[name]
-            if name == "_hash_value":
-                h = self.builtin_handlers.get("__hash_value_hook__")
-                if h is not None:
-                    return h(self, obj)
+            if name == "_deprecation_warnings_issued":
+                return SymSet(z3.EmptySet(V))   # A-WARN: deprecation bookkeeping ignored (always "not yet warned")
             return self.class_attr(obj, obj.cls, name)
         if isinstance(obj, SymObj):
             if name in obj.attrs:
